@@ -119,6 +119,21 @@ impl ObjectWriter for ObjectWriterFS {
         let relative_path = content_location_path
             .strip_prefix('/')
             .unwrap_or(content_location_path);
+        if std::path::Path::new(relative_path).components().any(|c| {
+            !matches!(
+                c,
+                std::path::Component::Normal(_) | std::path::Component::CurDir
+            )
+        }) {
+            log::error!(
+                "Content location {:?} is outside of the destination directory",
+                self.meta.content_location
+            );
+            return Err(FluteError::new(format!(
+                "Content location {:?} is outside of the destination directory",
+                self.meta.content_location
+            )));
+        }
         let destination = self.dest.join(relative_path);
         log::info!(
             "Create destination {:?} {:?} {:?}",
